@@ -163,6 +163,7 @@ static void gen_addr(Node *node) {
     println("  add $%d, %%rax", node->member->offset);
     return;
   case ND_FUNCALL:
+  case ND_EXCH:
     if (node->ret_buffer) {
       gen_expr(node);
       return;
@@ -748,12 +749,15 @@ static void builtin_alloca(void) {
 
 // Generate code for a given node.
 // cmpxchg compares and stores general-purpose registers, so the bits
-// of a float or double operand are moved there.
+// of a float or double operand are moved there, and the bytes of a
+// struct or union operand (which %rax points to) are loaded.
 static void flonum_to_gp(Type *ty) {
   if (ty->kind == TY_FLOAT)
     println("  movd %%xmm0, %%eax");
   else if (ty->kind == TY_DOUBLE)
     println("  movq %%xmm0, %%rax");
+  else if (ty->kind == TY_STRUCT || ty->kind == TY_UNION)
+    println("  mov (%%rax), %s", reg_ax(ty->size));
 }
 
 static void gen_expr(Node *node) {
@@ -1093,7 +1097,10 @@ static void gen_expr(Node *node) {
     pop("%rdi");
 
     println("  xchg %s, (%%rdi)", reg_ax(sz));
-    if (node->ty->kind == TY_FLOAT)
+    if (node->ret_buffer) {
+      println("  mov %s, %d(%%rbp)", reg_ax(sz), node->ret_buffer->offset);
+      println("  lea %d(%%rbp), %%rax", node->ret_buffer->offset);
+    } else if (node->ty->kind == TY_FLOAT)
       println("  movd %%eax, %%xmm0");
     else if (node->ty->kind == TY_DOUBLE)
       println("  movq %%rax, %%xmm0");
